@@ -8,7 +8,7 @@ Flags: C is tracked as a polynomial bit; adds/adcs/subs/sbcs/rsbs define it; lsl
 when that bit is a tracked 0/1 value, otherwise unknown); muls/eors/uxth/loads/stores leave it unchanged (ARMv6-M ARM A6.7);
 `mov` between two low registers makes it UNKNOWN (GNU as encodes it as adds #0 in divided syntax for pre-v6 cores, as MOV for v6)."""
 import re, os, subprocess
-from .asmsem import (ZPoly, ZERO, ONE, World, State, X86Machine, A64Machine, PathResult, Unsupported, big, operand_words,
+from .asmsem import (ZPoly, ZERO, ONE, World, State, X86Machine, A64Machine, PathResult, Unsupported, StaleFlag, big, operand_words,
                      check_exact, _leftover_ok)
 from . import asmcheck, thumbconv
 from . import buildmodel as bm
@@ -646,6 +646,10 @@ def rule_wordalg_thumb(ctx, cfg, outdir, rule='R-WORDALG', prog=None):
         insns, order, addr = tbl[name]
         try:
             res = analyse_routine(insns, order, addr, name)
+        except StaleFlag as e:
+            n += 1
+            ctx.ob(rule, False, 'wordalg|%s|flags' % name, name, '%s: %s' % (name, e), cfg=cfg)
+            continue
         except Unsupported as e:
             raise bm.AnalysisBroken('R-WORDALG cannot model %s: %s' % (name, e))
         for (pat, ok, msgs, npaths, notes, natoms) in res:
@@ -727,7 +731,7 @@ def analyse_thumb(insns, order, entry, name):
     m = FootprintThumb(insns, order, entry, kinds, R)
     try:
         finals = m.run()
-    except Unsupported as e:
+    except (Unsupported, StaleFlag) as e:
         R.problems.append('not modelled: %s' % e)
         return R
     idx = {a: i for i, a in enumerate(order)}
